@@ -894,7 +894,13 @@ fn check_update(
     let creads: Vec<Option<(i64, u8, u32)>> = ts.iter().map(|&k| rd_cmd(&pre[k].rd_c)).collect();
     match spec {
         DevSpec::Invert | DevSpec::Gear(_) | DevSpec::GearTeeth(_) | DevSpec::Axle(_) => {
-            let best = creads.iter().enumerate().filter_map(|(j, c)| c.map(|c| (j, c))).max_by_key(|(_, c)| c.0);
+            // the newest readable command; among copies with the same stamp prefer one whose value is
+            // finite (an overflowed copy is an image, not the source)
+            let best = creads
+                .iter()
+                .enumerate()
+                .filter_map(|(j, c)| c.map(|c| (j, c)))
+                .max_by_key(|(_, c)| (c.0, f32::from_bits(c.2).is_finite()));
             match best {
                 None => {
                     for &k in ts {
@@ -912,8 +918,12 @@ fn check_update(
                     let tie_conflict = creads.iter().enumerate().any(|(l, c)| match c {
                         Some((t, kd, b)) if *t == tstar && l != j => {
                             let f = relay_factor(spec, l, j).unwrap_or(1.0);
+                            // copies agree when either is the image of the other (in f32 range terms)
                             let w = f32_range(f32::from_bits(*b) as f64 * f);
-                            *kd != kind || w != v && !(w.is_finite() && v.is_finite() && (w - v).abs() <= 5e-7 * v.abs().max(w.abs()) + SUBNORMAL_SLACK)
+                            let u = f32::from_bits(*b) as f64;
+                            let back = f32_range(v * relay_factor(spec, j, l).unwrap_or(1.0));
+                            let close = |a: f64, c: f64| a == c || (a.is_finite() && c.is_finite() && (a - c).abs() <= 5e-7 * a.abs().max(c.abs()) + SUBNORMAL_SLACK);
+                            *kd != kind || !(close(w, v) || close(back, u))
                         }
                         _ => false,
                     });
@@ -939,7 +949,7 @@ fn check_update(
                                         viol2(ctx, &["C03", "C13"], "relay_time", comp, format!("op {}: terminal {} (local {}) reads a command stamped {} but the newest readable one is stamped {}", i, k, l, gt, tstar));
                                     } else if gk != kind {
                                         viol2(ctx, &["C13"], "relay_kind", comp, format!("op {}: terminal {} (local {}) reads kind {} but the newest command has kind {}", i, k, l, gk, kind));
-                                    } else if want.is_finite() && g.is_finite() && (g - want).abs() > 2e-6 * want.abs().max(g.abs()) + SUBNORMAL_SLACK {
+                                    } else if want.is_finite() && !(g.is_finite() && (g - want).abs() <= 2e-6 * want.abs().max(g.abs()) + SUBNORMAL_SLACK) {
                                         viol2(ctx, &["C13"], "relay_value", comp, format!("op {}: terminal {} (local {}) reads {:e}; the newest command {:e} at local {} maps to {:e}", i, k, l, g, v, j, want));
                                     }
                                 }
